@@ -4,9 +4,9 @@
    function changes the regenerated definition and the proof below stops checking; a construct outside the translated
    subset removes the definition (Definition translation_failed_<target>) and the theorem stops compiling.
    Statements only (proofs in Proofs/SrcTie*P.v). *)
-From Coq Require Import List Bool ZArith String Ascii.
+From Coq Require Import List Bool ZArith String Ascii Permutation.
 Import ListNotations.
-Require Import MV.Model.PySem MV.Spec.Types MV.Model.LinkSel MV.Gen.Src MV.Gen.SrcPlan MV.Gen.SrcOpt MV.Gen.TypeTables
+Require Import MV.Model.PySem MV.Spec.Types MV.Model.LinkSel MV.Gen.Src MV.Gen.SrcPlan MV.Gen.SrcOpt MV.Gen.SrcName MV.Gen.TypeTables
   MV.Proofs.SrcTieP.
 Require MV.Model.Orch MV.Model.Naming MV.Model.ChainParser MV.Model.PlannerA MV.Model.PlannerL MV.Model.PyObj.
 Require MV.Model.Options MV.Model.PyObjOpt MV.Spec.OptionsSpec.
@@ -112,6 +112,17 @@ Theorem SrcTie_is_chained_feature : forall s,
   FeatureChainParser_is_chained_feature s = ChainParser.has_dunder (list_ascii_of_string s).
 Proof. exact is_chained_feature_src. Qed.
 Print Assumptions SrcTie_is_chained_feature.
+
+(* ---------------- C03 (round 2): abstract_plugins/compute_framework.py  identify_naming_convention (coq/Gen/SrcName.v) ---------------- *)
+(* Optional[str] ordering with a default, a set comprehension, f-strings, sorted / list.sort, list.extend with a generator that
+   reads the list it extends, a result that is a set (inl) or a list (inr): the function IS Naming.identify - ValueError exactly
+   when the model says RErr - for every iteration order of the FeatureName set (iter: the model's parameter), every set of
+   columns and every order in which the two sets the function builds itself are iterated (ord: any permutation) *)
+Theorem SrcTie_identify_naming_convention : forall ord, (forall s l, Permutation (ord s l) l) ->
+  forall iter cols o, NoDup cols ->
+  ComputeFramework_identify_naming_convention ord iter cols o = of_result (Naming.identify iter cols (ordering_of o)).
+Proof. exact identify_naming_convention_src. Qed.
+Print Assumptions SrcTie_identify_naming_convention.
 
 (* ---------------- C04, the planner (round 2): coq/Gen/SrcPlan.v; data model of the planner objects: Model/PyObj.v ---------------- *)
 (* mloda/core/core/step/join_step.py  JoinStep.get_uuids = the uuids PlannerL gives its LJOIN step *)
@@ -361,4 +372,11 @@ Example SrcTie_opt_examples :
   (* update with protected key a: the child's a is not merged; without: it replaces the parent's *)
   Options.og (snd (Options_update_with_protected_keys (fun _ l => l) (parent []) child (Some [a]))) = [(a, Options.VInt 1)] /\
   Options.og (snd (Options_update_with_protected_keys (fun _ l => rev l) (parent []) child None)) = [(a, Options.VInt 2)].
+Proof. vm_compute. repeat split. Qed.
+
+Example SrcTie_name_examples :
+  ComputeFramework_identify_naming_convention (fun _ l => rev l) ["f"%string; "g"%string] ["g~2"%string; "x"%string; "f"%string; "g~1"%string]
+    (Some "request_order"%string) = Ok (inr ["f"%string; "g~1"%string; "g~2"%string]) /\
+  ComputeFramework_identify_naming_convention (fun _ l => l) ["f"%string] ["x"%string] None = Raise ValueError /\
+  ComputeFramework_identify_naming_convention (fun _ l => l) ["f"%string] ["f"%string] (Some "other"%string) = Raise ValueError.
 Proof. vm_compute. repeat split. Qed.
